@@ -17,3 +17,6 @@ package types
 //@   ensures infix_operands_parenthesised_as_needed: typeof(node) == *dsl.BinaryExpression && node.(*dsl.BinaryExpression) != nil && node.(*dsl.BinaryExpression).Operator != dsl.BinaryOpPow ==> emittedHere("(") == needsLeft(node.(*dsl.BinaryExpression)) + needsRight(node.(*dsl.BinaryExpression)) && emittedHere(")") == needsLeft(node.(*dsl.BinaryExpression)) + needsRight(node.(*dsl.BinaryExpression))
 //@   ensures pow_is_a_call: typeof(node) == *dsl.BinaryExpression && node.(*dsl.BinaryExpression) != nil && node.(*dsl.BinaryExpression).Operator == dsl.BinaryOpPow ==> emittedHere("std::pow(") == 1 && emittedHere(", ") == 1 && emittedHere(")") == 1
 //@   ensures operator_tokens: typeof(node) == *dsl.BinaryExpression && node.(*dsl.BinaryExpression) != nil ==> (node.(*dsl.BinaryExpression).Operator == dsl.BinaryOpAdd ==> emittedHere("+") == 1) && (node.(*dsl.BinaryExpression).Operator == dsl.BinaryOpSub ==> emittedHere("-") == 1) && (node.(*dsl.BinaryExpression).Operator == dsl.BinaryOpMul ==> emittedHere("*") == 1) && (node.(*dsl.BinaryExpression).Operator == dsl.BinaryOpDiv ==> emittedHere("/") == 1)
+
+// Output and diagnostics may not depend on the iteration order of a Go map (C12): decided per `range` over a map.
+//@ map-order C12 package
